@@ -121,6 +121,8 @@ def layer_case(rec, B, tg, tp, r, qubits, coins=None):
             Rho = Pi @ Rho @ Pi / np.trace(Pi @ Rho).real
         if not probs:
             rec.check("ml.dense", O.close(O.rho(lg, lp, lr), Rho), case, nt, tags=tags)
+    if len(set(qubits)) == len(qubits):
+        layer_backward_case(rec, B, gen.rng_for(rec, extra=len(rec.digests)), ML, qubits, res, N)
     # a second identical layer returns the same record with log2prob 0
     ML2 = B.circuit.MeasureLayer(*qubits, N=N)
     ok, _ = rec.attempt("ml.repeat", case, lambda: ML2.forward(S))
@@ -129,6 +131,55 @@ def layer_case(rec, B, tg, tp, r, qubits, coins=None):
         g2, p2, r2 = B.state(S)
         rec.check("ml.repeat", res2 == res and abs(float(ML2.log2prob)) < 1e-12 and r2 == lr, case, nt,
                   expected={"result": res, "log2prob": 0.0}, observed={"result": res2, "log2prob": float(ML2.log2prob), "r": r2}, tags=tags)
+
+
+def layer_backward_case(rec, B, rng, ML, qubits, res, N):
+    """the layer's own backward (post-selection on its own record when none is supplied, on the supplied one otherwise) applied
+    directly to pure states - the entry point circuits never use, since they always hand a slice of the circuit record over."""
+    for mode in ("own", "supplied"):
+        tg, tp, _ = O.random_tableau(rng, N, r=0)
+        if rng.integers(2):   # start from a state in which the record is possible: the computational state with those outcomes
+            tg, tp = O.map_identity(N)
+            tg = np.concatenate([tg[1::2], tg[0::2]])          # rows Z_0..Z_{N-1}, then X_0..X_{N-1}
+            tp = np.zeros(2 * N, dtype=np.int64)
+            for q, x in zip(qubits, res):
+                tp[q] = 0 if x == 1 else 2
+            for q in range(N):
+                if q not in qubits and rng.integers(2):
+                    tp[q] = 2
+            if O.tableau_problems(tg, tp, 0):
+                rec.inconclusive("computational tableau invalid")
+                return
+            mg, mp = O.random_map(rng, N, nrot=int(rng.integers(0, 3)))
+            tg, tp = O.map_image_list(mg, mp, tg, tp)
+        record = list(res) if mode == "own" else [int(x) for x in rng.choice([1, -1], size=len(qubits))]
+        T = B.State(tg.copy(), tp.copy(), 0)
+        G = O.GroupState.from_tableau(tg, tp, 0)
+        possible = True
+        for ii in range(1, len(record) + 1):
+            bit = (1 - record[-ii]) // 2
+            if G.copy().project(zq(qubits[-ii], N), 0, bit) == 0:
+                possible = False
+                break
+            G.project(zq(qubits[-ii], N), 0, bit)
+        case = {"Mz": list(qubits), "own_record": res, "mode": mode, "record": record, "state": _show(tg[:N], tp[:N])}
+        try:
+            ML.backward(T) if mode == "own" else ML.backward(T, measure_result=list(record))
+            got = "returned"
+        except ValueError:
+            got = "ValueError"
+            rec.refusal("ValueError:impossible record (layer)")
+        except Exception as e:
+            got = "%s: %s" % (type(e).__name__, e)
+        if getattr(rec, "lenient", False) and got not in ("returned", "ValueError"):
+            rec.refusal("layer.bwd:" + got.split(":")[0])
+        elif possible:
+            lg, lp, lr = B.state(T)
+            rec.check("ml.backward." + mode, got == "returned" and lr == 0 and not O.tableau_problems(lg, lp, lr) and O.state_key(lg, lp, lr) == G.key(),
+                      case, len(set(record)) > 1 or len(record) == 1, expected=[O.show(np.array(a), b) for a, b in G.key()[1]],
+                      observed={"call": got, "rows": _show(lg[:N], lp[:N])})
+        else:
+            rec.check("ml.backward.refuses", got == "ValueError", case, True, expected="ValueError", observed=got)
 
 
 def run_layers(shard, rec, B):
